@@ -30,7 +30,7 @@ def extra(ctx):
     run_hostile_payloads(ctx)
 
 def run(ctx):
-    generic_run(ctx, LABELS, extra=extra, plan=[("inject_silent", lambda: F.fam_inject_silent(ctx.rng, sizes(ctx, 60, 600))), ("inject", lambda: F.fam_inject(ctx.rng, sizes(ctx, 150, 1500)))])
+    generic_run(ctx, LABELS, extra=extra, plan=[("inject_silent", lambda: F.fam_inject_silent(ctx.rng, sizes(ctx, 60, 600))), ("inject", lambda: F.fam_inject(ctx.rng, sizes(ctx, 150, 1500))), ("inject_loss", lambda: F.fam_inject_loss(ctx.rng, sizes(ctx, 60, 600)))])
 
 def replay(ctx, path):
     import json
